@@ -906,6 +906,49 @@ func (c *evalCtx) call(x *SExpr) (*Val, error) {
 	case "sel":
 		es := "Int"
 		return &Val{T: sSel(args[0].T, args[1].T), S: es}, nil
+	case "store":
+		return &Val{T: sStore(args[0].T, args[1].T, args[2].T), S: args[0].S}, nil
+	case "seen":
+		// seen(k): key k has been visited by the map range loop whose invariant this is
+		var comp string
+		for rng, cname := range c.fr.seenComp {
+			if c.hdr == nil || len(c.fr.seenComp) == 1 {
+				comp = cname
+				break
+			}
+			for _, ref := range *rng.Referrers() {
+				if nx, ok := ref.(*ssa.Next); ok && nx.Block() == c.hdr {
+					comp = cname
+				}
+			}
+		}
+		if comp == "" {
+			// the Next instruction has not been executed yet (invariant on entry): nothing seen
+			for _, b := range c.fr.fn.Blocks {
+				for _, in := range b.Instrs {
+					if nx, ok := in.(*ssa.Next); ok && !nx.IsString && (c.hdr == nil || nx.Block() == c.hdr) {
+						rng := nx.Iter.(*ssa.Range)
+						comp = "Seen_" + san(c.fr.prefix+"_"+rng.Name())
+						c.fr.seenComp[rng] = comp
+					}
+				}
+			}
+		}
+		if comp == "" {
+			return nil, fmt.Errorf("unbound:seen() outside a map range loop")
+		}
+		ks := "Int"
+		return &Val{T: sSel(e.get(c.cur, comp, "(Array "+ks+" Bool)"), args[0].T), S: "Bool"}, nil
+	case "keyid":
+		// abstract identity of a byte string: an uninterpreted function of its bytes
+		a := args[0]
+		sl, ok := a.GoT.Underlying().(*types.Slice)
+		if !ok {
+			return nil, fmt.Errorf("keyid() needs a byte slice")
+		}
+		comp, es := e.elemComp(sl.Elem())
+		e.needStrOf()
+		return in("(strOf " + sSel(e.get(c.cur, comp, arrSort(es)), "(s-arr "+a.T+")") + " (s-off " + a.T + ") (s-len " + a.T + "))")
 	case "deref":
 		return c.fr.loadQuiet(c.cur, args[0]), nil
 	case "as":
